@@ -20,6 +20,7 @@ import (
 	"fmt"
 	"os"
 	"os/exec"
+	"path/filepath"
 	"runtime"
 	"runtime/metrics"
 	"strconv"
@@ -31,6 +32,7 @@ import (
 	"github.com/piotrnar/gocoin/lib/btc"
 	"pgregory.net/rapid"
 	"verif/pbt"
+	"verif/props/c09/blocklib"
 	"verif/ref/wire"
 )
 
@@ -66,6 +68,13 @@ func TestMain(m *testing.M) {
 			return err
 		}
 		return checkBlockCase(c)
+	})
+	pbt.RegisterReplay("block_parallel", func(raw json.RawMessage) error {
+		var c blocklib.ParCase
+		if err := json.Unmarshal(raw, &c); err != nil {
+			return err
+		}
+		return checkParallel(c)
 	})
 	pbt.RegisterReplay("hostile_counts", func(raw json.RawMessage) error {
 		var c byteCase
@@ -921,6 +930,116 @@ func TestBlockBytes(t *testing.T) {
 		}
 		pbt.AddExtra("byte_strings_decoded", 1)
 		if err := checkBlockCase(c); err != nil {
+			r.Failf("%v", err)
+		}
+	})
+}
+
+// ---------------------------------------------------------------------------------------------
+// large multi-pack blocks: BuildTxListExt(true) hashes the transactions in parallel, one goroutine per
+// 4096-byte pack, and sums the block weight from those goroutines.  A block of hundreds of packs is decoded
+// repeatedly under several GOMAXPROCS values and compared with the reference every time (a lost update of
+// the weight shows as a short BlockWeight), and a smaller block goes through a helper binary built with the
+// race detector, which reports unsynchronised accesses from the pack goroutines deterministically.
+
+func raceBinary() string {
+	if dir := os.Getenv("VERIF_BUILD"); dir != "" {
+		return filepath.Join(dir, "c09race")
+	}
+	return ""
+}
+
+// errInfra marks harness failures (no verdict about gocoin)
+type errInfra struct{ error }
+
+func runRaceHelper(c blocklib.ParCase) error {
+	bin := raceBinary()
+	if bin == "" || c.RaceNTx <= 0 {
+		return nil
+	}
+	if _, err := os.Stat(bin); err != nil {
+		return errInfra{fmt.Errorf("race helper %s is missing: %v", bin, err)}
+	}
+	line, _ := json.Marshal(c)
+	cmd := exec.Command(bin)
+	cmd.Env = append(os.Environ(), "GORACE=halt_on_error=1 exitcode=66", "GOMAXPROCS=4")
+	cmd.Stdin = bytes.NewReader(append(line, '\n'))
+	var so, se bytes.Buffer
+	cmd.Stdout, cmd.Stderr = &so, &se
+	runErr := cmd.Run()
+	if strings.Contains(se.String(), "WARNING: DATA RACE") {
+		return fmt.Errorf("data race reported by the Go race detector inside NewBlock+BuildTxList on a block of %d transactions (what the block reports depends on the schedule): %s", c.RaceNTx, raceFrames(se.String()))
+	}
+	out := strings.TrimSpace(so.String())
+	if strings.HasPrefix(out, "FAIL ") {
+		return fmt.Errorf("under the race-detector build: %s", out)
+	}
+	if runErr != nil || !strings.HasPrefix(out, "OK") {
+		return errInfra{fmt.Errorf("race helper: %v: %s %s", runErr, out, tail(se.String(), 300))}
+	}
+	return nil
+}
+
+// raceFrames keeps the function names of the first report
+func raceFrames(rep string) string {
+	var fr []string
+	for _, l := range strings.Split(rep, "\n") {
+		l = strings.TrimSpace(l)
+		if strings.HasPrefix(l, "Write at") || strings.HasPrefix(l, "Previous") || strings.HasPrefix(l, "Read at") || strings.HasPrefix(l, "github.com/piotrnar/gocoin") {
+			fr = append(fr, l)
+		}
+		if len(fr) >= 6 {
+			break
+		}
+	}
+	return strings.Join(fr, " | ")
+}
+
+func checkParallel(c blocklib.ParCase) error {
+	b := blocklib.Build(c, c.NTx)
+	r, err := blocklib.MakeRef(b)
+	if err != nil {
+		return err
+	}
+	old := runtime.GOMAXPROCS(0)
+	defer runtime.GOMAXPROCS(old)
+	for _, p := range c.Procs {
+		runtime.GOMAXPROCS(p)
+		for i := 0; i < c.Reps; i++ {
+			if err := blocklib.Decode(b, r); err != nil {
+				return fmt.Errorf("decoding %d of %d with GOMAXPROCS=%d: %v", i+1, c.Reps, p, err)
+			}
+		}
+	}
+	runtime.GOMAXPROCS(old)
+	return runRaceHelper(c)
+}
+
+func TestBlockParallel(t *testing.T) {
+	if raceBinary() == "" {
+		pbt.Note("block_parallel: VERIF_BUILD not set (not run by the driver) - race-detector half skipped")
+	}
+	pbt.Check(t, pbt.Cfg{Name: "block_parallel", Quick: 48, Thorough: 1600}, func(r *pbt.Run) {
+		c := blocklib.ParCase{Seed: rapid.Uint64().Draw(r.T, "seed"), Reps: 8, Procs: []int{2, 4, 16}}
+		c.ScriptLen = rapid.SampledFrom([]int{0, 20, 107, 107, 250}).Draw(r.T, "scriptlen")
+		packs := rapid.IntRange(150, 700).Draw(r.T, "packs")
+		c.WitEvery = rapid.SampledFrom([]int{0, 1, 2, 3, 10}).Draw(r.T, "witevery")
+		c.BigEvery = rapid.SampledFrom([]int{0, 0, 7, 50}).Draw(r.T, "bigevery")
+		per := 4 + 1 + 41 + c.ScriptLen + 8 + 1 + 9 + 24 + 4 // rough transaction size
+		c.NTx = packs * 4096 / per
+		c.RaceNTx = rapid.IntRange(40, 120).Draw(r.T, "racepacks") * 4096 / per
+		r.Case(c)
+		r.Class(fmt.Sprintf("packs>=%d00", min(packs/100, 6)))
+		if raceBinary() != "" {
+			r.Class("race_detector_run")
+		}
+		r.NonTrivial()
+		pbt.AddExtra("multi_pack_block_decodings", int64(c.Reps*len(c.Procs)))
+		err := checkParallel(c)
+		if _, infra := err.(errInfra); infra {
+			r.T.Fatalf("%v", err) // no replay file: the driver reports inconclusive
+		}
+		if err != nil {
 			r.Failf("%v", err)
 		}
 	})
